@@ -40,3 +40,32 @@ Definition content (cv : canvas) (lv : live) (trim_left trim_top : Z) (cols rows
   let '(ha, va) := cv_align cv in
   if cv_gfx cv then content_gfx W H (cv_lines cv) (lv_disguise lv) trim_left trim_top cols rows
   else map (fun r => (r, O)) (content_text ha va W H w h (cv_lines cv) trim_left trim_top cols rows).
+
+(** ** flow widgets under a changing ENVIRONMENT ([_urwid.py:131-142, 165-177])
+
+    The image's [_valid_size] depends on the environment in force WHEN IT IS CALLED: the
+    global cell ratio ([term_image.set_cell_ratio], or the terminal's cell size under
+    [AutoCellRatio.DYNAMIC]; text images: [_pixel_ratio = 2 * get_cell_ratio()]), the cell
+    size (graphics images), the terminal size (relative frame sizes).  It is a parameter
+    here: [valid_size e None] = [_valid_size(Size.ORIGINAL)], [valid_size e (Some c)] =
+    [_valid_size(c)], both evaluated in environment [e].  [rows] and [render] each evaluate
+    it in the environment current at THEIR call. *)
+Section Flow.
+Variable env : Type.
+Variable valid_size : env -> option Z -> Z * Z.
+
+(** [UrwidImage.rows((maxcol,))] called in environment [e] *)
+Definition rows_in (e : env) (upscale : bool) (maxcol : Z) : Z :=
+  rows upscale (valid_size e (Some maxcol)) (valid_size e None).
+
+(** the canvas size / image size of [UrwidImage.render((maxcol,))] called in environment [e] *)
+Definition flow_canvas_in (e : env) (upscale : bool) (maxcol : Z) : Z * Z :=
+  flow_canvas_size maxcol upscale (valid_size e (Some maxcol)) (valid_size e None).
+Definition flow_image_in (e : env) (upscale : bool) (maxcol : Z) : Z * Z :=
+  flow_image_size upscale (valid_size e (Some maxcol)) (valid_size e None).
+
+(** what a widget that memoised the ORIGINAL size in the environment [e0] of its
+    construction would announce in environment [e] (NOT what the code does) *)
+Definition rows_stale (e0 e : env) (upscale : bool) (maxcol : Z) : Z :=
+  rows upscale (valid_size e (Some maxcol)) (valid_size e0 None).
+End Flow.
